@@ -146,6 +146,8 @@ impl Builtins {
                     None => {
                         #[cfg(feature = "verif")]
                         crate::verif::emit(serde_json::json!({"ev":"import","raw":raw_path.as_ref(),"norm":path.as_ref(),"res":"eval"}));
+                        // One output per evaluation of a file, not per process.
+                        env.borrow_mut().reset_out_lock_for_path(&normalized);
                         let op_pointer = decorate_error!(path_pos => env.borrow_mut().get_ops_for_path(path.as_ref()))?;
                         let base_path = normalized.parent().ok_or_else(|| {
                             Error::new(
